@@ -381,7 +381,7 @@ def analyze(scenario, log):
                         bad("C04", "wait_process(%d) by process %d returned SUCCESS at t=%d but process %d has not ended" % (q, pid, t, q))
                     elif not any(te == t or (te <= t0 and t == t0) for te in end_times[q]):
                         bad("C04", "wait_process(%d) by process %d returned SUCCESS at t=%d but process %d ended at t=%s" % (q, pid, t, q, end_times[q]))
-            if op == "cwait":
+            if op in BLOCKING:
                 dequeued.discard(pid)
             if op in ("ccancel", "cremove") and val == 1:
                 dequeued.add(a[1])        # taken out of the condition's queue (its wake-up, if any, is pending)
@@ -459,6 +459,7 @@ def analyze(scenario, log):
                     else:
                         timers[h] = []      # the victim of a preemption loses its timers (cancel_awaiteds)
                         notif[h].append((t, -1, "preempt"))
+                        dequeued.add(h)     # ... and is taken out of any waiting list it is in (its PREEMPTED wake-up is pending)
                 if h is None:
                     res_changes[r].append((t, 1))
                 holder[r] = pid
